@@ -317,8 +317,9 @@ var c11Backoffs = []c11Backoff{
 	{15 * time.Millisecond, 8, 60 * time.Millisecond},
 	// initial ABOVE the T5 ceiling (nothing validates initial against T5): every delay, the first one
 	// included, must still be capped at T5 (added after seeded change C11a-2 was missed)
-	{400 * time.Millisecond, 2, 60 * time.Millisecond},
-	{250 * time.Millisecond, 1, 50 * time.Millisecond},
+	// (initial is far above T5 + the timing slack, so an uncapped first delay cannot hide in the margin)
+	{6 * time.Second, 2, 60 * time.Millisecond},
+	{5 * time.Second, 1, 50 * time.Millisecond},
 }
 
 const (
